@@ -37,11 +37,20 @@ Definition opt_z_eqb (a : option Z) (b : Z) : bool :=
 Lemma opt_z_eqb_true a b : opt_z_eqb a b = true -> a = Some b.
 Proof. destruct a; cbn; [|discriminate]. intros H. apply Z.eqb_eq in H. congruence. Qed.
 
-Definition upto (n : nat) : list Z := map Z.of_nat (seq 0 n).
+Fixpoint zseq (start : Z) (n : nat) : list Z :=
+  match n with
+  | O => []
+  | S k => start :: zseq (start + 1) k
+  end.
+Lemma zseq_in n : forall s x, s <= x < s + Z.of_nat n -> In x (zseq s n).
+Proof.
+  induction n; intros s x H; [lia|]. cbn [zseq].
+  destruct (Z.eq_dec x s); [left; congruence|]. right. apply IHn. lia.
+Qed.
+Definition upto (n : nat) : list Z := zseq 0 n.
 Lemma upto_all n p : forallb p (upto n) = true -> forall x, 0 <= x < Z.of_nat n -> p x = true.
 Proof.
-  intros H x Hx. rewrite forallb_forall in H. apply H. unfold upto.
-  apply in_map_iff. exists (Z.to_nat x). split; [lia|]. apply in_seq. lia.
+  intros H x Hx. rewrite forallb_forall in H. apply H. apply zseq_in. lia.
 Qed.
 
 (** from_primitive is total and to_primitive (from_primitive v) is the
@@ -74,7 +83,7 @@ Theorem tlv_type_table : forall v, 0 <= v < 65536 ->
   roundtrip tlv_type_from tlv_type_to v = Some (canon_tlv_type v).
 Proof.
   intros v Hv. apply opt_z_eqb_true.
-  apply (upto_all 65536 (fun v => opt_z_eqb (roundtrip tlv_type_from tlv_type_to v) (canon_tlv_type v)));
+  apply (upto_all (Z.to_nat 65536) (fun v => opt_z_eqb (roundtrip tlv_type_from tlv_type_to v) (canon_tlv_type v)));
     [vm_compute; reflexivity | exact Hv].
 Qed.
 
@@ -86,7 +95,7 @@ Theorem tlv_propagate_table : forall v, 0 <= v < 65536 ->
 Proof.
   intros v Hv.
   assert (H : bool_eqb (in_ranges tlv_announce_propagate_ranges v) (tlv_announce_propagate v) = true).
-  { apply (upto_all 65536 (fun v => bool_eqb (in_ranges tlv_announce_propagate_ranges v) (tlv_announce_propagate v)));
+  { apply (upto_all (Z.to_nat 65536) (fun v => bool_eqb (in_ranges tlv_announce_propagate_ranges v) (tlv_announce_propagate v)));
       [vm_compute; reflexivity | exact Hv]. }
   destruct (in_ranges _ v), (tlv_announce_propagate v); cbn in H; congruence.
 Qed.
